@@ -269,7 +269,7 @@ class C18(Prop):
           '(device level: some slot out of bounds)')
   sizes = {'quick': 1500, 'thorough': 16000}
   assumptions = ['T2 runs Intersection with _maxiter = 25 on both sides (exact rational Dykstra iterates grow); the oracle uses the shipped 1000',
-                 'numpy dtype effects (integer-typed points) are outside the model; the oracle exercises them',
+                 'integer-typed points are sent as Python ints / integer arrays on the implementation side and as the same exact numbers to the model',
                  'utils.project (SciPy SLSQP) is a parameter: oracle only, feasibility 1e-6 and distance against random feasible points']
 
   def __init__(self):
@@ -279,6 +279,12 @@ class C18(Prop):
     self.stats[k] = self.stats.get(k, 0) + 1
 
   # ------------------------------------------------------------ cases
+  def corpus(self):
+    """minimised past failures (run first on every check): inputs on which an earlier revision of the library failed."""
+    import json as _json, os as _os
+    path = _os.path.join(_os.path.dirname(_os.path.abspath(__file__)), 'c18_corpus.json')
+    return _json.load(open(path)) if _os.path.exists(path) else []
+
   def cases(self, rng, tier, count):
     out = []
     kinds = ['cube']*6 + ['halfspace']*6 + ['slice']*6 + ['inter']*6 + ['list']*4 + ['minter']*1 + ['device']*4 + ['set']*4 + ['mf']*2
@@ -346,6 +352,13 @@ class C18(Prop):
                    'z': [G.L(z) for z in zs]})
     elif kind == 'device':
       d = gen.gen_leaf(rng, tier if tier != 'thorough' else 'thorough')
+      if rng.random() < 0.3:
+        # setter-then-project: the device is built with the bounds of `dev0`, then `device.bounds = …` is assigned
+        d2 = gen.gen_leaf(rng, 'quick', [d['cls']], n=d['n'])
+        case['dev0'] = d
+        d = dict(d, lb=d2['lb'], hb=d2['hb'], _py=dict(d['_py'], bform=d2['_py']['bform']))
+        if d['cls'] == 'CDevice2' or d.get('cbs'):
+          d['cbs'] = case['dev0']['cbs']
       s = self.perturbed(rng, [F(x) for x in gen.leaf_flow(rng, d)])
       size = len(s)
       if rng.random() < 0.04:
@@ -357,6 +370,15 @@ class C18(Prop):
       else:
         n = rng.randint(1, 6) if tier != 'thorough' else rng.randint(1, 12)
         t = self.gen_mf(rng, tier, n)
+      if kind == 'set' and rng.random() < 0.25:
+        leaves = [b for b in gen.tree_leaves(t) if b['k'] == 'leaf']
+        if leaves:
+          import copy
+          case['tree0'] = copy.deepcopy(t)
+          b = rng.choice(leaves)
+          d2 = gen.gen_leaf(rng, 'quick', [b['dev']['cls']], n=n)
+          b['dev'] = dict(b['dev'], lb=d2['lb'], hb=d2['hb'], _py=dict(b['dev']['_py'], bform=d2['_py']['bform']))
+          case['rebound'] = b['id']
       S = gen.tree_flow(rng, t, n)
       S = [G.L(self.perturbed(rng, [F(x) for x in row])) for row in S]
       size = len(S)*n
@@ -394,8 +416,6 @@ class C18(Prop):
   def ops(self, case):
     kind = case['kind']
     n_ = np()
-    if kind == 'list' and case.get('_int'):
-      return []     # integer dtype is a numpy effect outside the model (points are exact rationals there); oracle only
     if kind in ('cube', 'halfspace', 'slice', 'inter', 'list', 'minter'):
       M = case['maxiter']
       key = 'P' if kind in ('list', 'minter') else 'p'
@@ -411,16 +431,43 @@ class C18(Prop):
     if kind == 'device':
       d = case['dev']
       def proj():
-        dev = build.build_leaf(d)
+        dev = self.build_dev(case)
         return dev.project(self.dev_input(case))
       return [Op({'op': 'proj.device', 'dev': d, 's': case['s'], 'size': case['size']}, flagged(proj), 1e-9, 'Device.project')]
     if kind in ('set', 'mf'):
       def proj():
-        dev = build.build_tree(case['tree'])
+        dev = self.build_set(case)
         return dev.project(self.set_input(case))
       return [Op({'op': 'proj.' + kind, 'tree': case['tree'], 'n': case['n'], 'S': case['S'], 'size': case['size']}, flagged(proj), 1e-9,
                  'DeviceSet.project' if kind == 'set' else 'MFDeviceSet.project')]
     return []
+
+  def build_dev(self, case):
+    """the leaf device of a `device` case; with `dev0` the bounds are re-assigned after construction."""
+    if 'dev0' in case:
+      dev = build.build_leaf(case['dev0'])
+      dev.bounds = build.py_bounds(case['dev'])
+      return dev
+    return build.build_leaf(case['dev'])
+
+  def build_set(self, case):
+    """the tree of a `set` / `mf` case; with `tree0` one leaf gets `device.bounds = …` after the tree was built."""
+    if 'tree0' not in case:
+      return build.build_tree(case['tree'])
+    dk = C.repo()
+    root = build.build_tree(case['tree0'])
+    new = [b for b in gen.tree_leaves(case['tree']) if b['k'] == 'leaf' and b['id'] == case['rebound']][0]['dev']
+    def walk(d):
+      if isinstance(d, dk.MFDeviceSet):
+        return False
+      if hasattr(d, 'devices'):
+        return any(walk(c) for c in d.devices)
+      if d.id == case['rebound']:
+        d.bounds = build.py_bounds(new)
+        return True
+      return False
+    assert walk(root), 'leaf %s not found' % case['rebound']
+    return root
 
   def dev_input(self, case):
     a = build.arr(case['s'])
@@ -597,7 +644,10 @@ class C18(Prop):
     d = case['dev']; cls = d['cls']
     lb = n_.array([pf(x) for x in d['lb']]); hb = n_.array([pf(x) for x in d['hb']])
     desc = '%s n=%d lb=%s hb=%s s=%s (%s input)' % (cls, d['n'], d['lb'], d['hb'], case['s'], case.get('_shape'))
-    dev = build.build_leaf(d)
+    if 'dev0' in case:
+      desc += ' [built with lb=%s hb=%s, then device.bounds assigned]' % (case['dev0']['lb'], case['dev0']['hb'])
+      self.bump('device:setter-then-project')
+    dev = self.build_dev(case)
     s_in = self.dev_input(case)
     keep = s_in.copy()
     try:
@@ -634,7 +684,10 @@ class C18(Prop):
     S = build.arr(case['S'])
     R = S.shape[0]
     desc = '%s rows=%d n=%d S=%s (%s input)' % (cls, R, n, case['S'], case['_form'])
-    dev = build.build_tree(t)
+    if 'tree0' in case:
+      desc += ' [device.bounds of leaf %s assigned after the tree was built]' % case['rebound']
+      self.bump('set:setter-then-project')
+    dev = self.build_set(case)
     results = {}
     forms = [case['_form']] + [f for f in ('flat', 'shaped') if f != case['_form'] and case['_form'] != 'flat+1']
     for form in forms:
@@ -811,5 +864,9 @@ PROP.theorems = [
   'DK.C18.VRegion.inter_shortcut_a',
   'DK.C18.VRegion.inter_shortcut_b',
   'DK.C18.box_half_shortcut',
+  'DK.C18.dykTest_false_iff',
+  'DK.C18.interProj_ok_mem',
+  'DK.C18.VRegion.inter_result_isIn',
+  'DK.C18.box_half_result_isIn',
   'DK.dist2_le_of_variational',
 ]
